@@ -299,7 +299,8 @@ Qed.
 Theorem ok_sound c :
   ok c = true -> length (a_out c) = a_n c /\ Forall (In_box (a_bounds c)) (a_out c).
 Proof.
-  unfold ok. intros H. apply andb_true_iff in H. destruct H as [H1 H2]. apply Nat.eqb_eq in H1.
+  unfold ok. intros H. apply andb_true_iff in H. destruct H as [H1 H2].
+  apply andb_true_iff in H1. destruct H1 as [_ H1]. apply Nat.eqb_eq in H1.
   split; auto. rewrite forallb_forall in H2. apply Forall_forall. intros x Hx. apply in_box_spec. auto.
 Qed.
 
